@@ -7,6 +7,7 @@ import (
 	"encoding/json"
 	"fmt"
 	"os"
+	"path/filepath"
 	"sort"
 	"strings"
 	"time"
@@ -42,6 +43,9 @@ func expect(o gen.NestedOpt) expectation {
 	e := expectation{}
 	notEvidence := o.DefectLevel == 2 && (o.Defect == "sub-other-key" || o.Defect == "sub-sig-corrupt")
 	switch {
+	case o.CoDiffers && o.CoThreshold == 2 && o.Delegate == "authorised" && o.Defect == "" && o.ParentRules == "match":
+		// a plain link and a sublayout serve the threshold-2 step and report different products
+		e.accept, e.noMarkerUpTo = false, 1
 	case o.CoSub == "both-complete":
 		e.accept, e.allMarkers = true, true
 	case o.CoSub != "":
@@ -80,7 +84,19 @@ func once(c *mcx.Ctx, n *gen.Nested, ch *mcx.Chooser) (obs, sig string) {
 	intoto.VerifPermHook = func(site string, k int) []int { return ch.Perm(site, k) }
 	intoto.VerifNowHook = func() time.Time { return T }
 	defer func() { intoto.VerifPermHook, intoto.VerifNowHook = nil, nil }()
-	sum, err := gen.VerifyAt(c.Work, o.Entry, n.Root, n.Keys, n.LinkDir, nil, nil)
+	var sum intoto.Metadata
+	var err error
+	if o.RelLinks {
+		// as the command line does when no link directory is named: links are taken from the working directory
+		os.Chdir(n.LinkDir)
+		sum, err = intoto.InTotoVerify(n.Root, n.Keys, "", "", map[string]string{}, nil, false)
+		os.Chdir("/")
+		for _, f := range []string{"insp1.link", "insp2.link", "insp3.link", "inspc.link"} {
+			os.Remove(filepath.Join(n.LinkDir, f)) // inspection links land in the working directory
+		}
+	} else {
+		sum, err = gen.VerifyAt(c.Work, o.Entry, n.Root, n.Keys, n.LinkDir, nil, nil)
+	}
 	c.Impl(1)
 	markers := n.MarkersPresent()
 	sort.Ints(markers)
@@ -96,6 +112,12 @@ func once(c *mcx.Ctx, n *gen.Nested, ch *mcx.Chooser) (obs, sig string) {
 	}
 	if o.Entry == 1 {
 		short += "|with-run-directory"
+	}
+	if o.RelLinks {
+		short += "|links-from-working-directory"
+	}
+	if o.CoDiffers {
+		short += "|plain-link-differs-from-summary"
 	}
 	_ = cls
 	if err != nil {
@@ -238,6 +260,19 @@ func enumerateAll(thorough bool, emit func(gen.NestedOpt)) {
 			o.Entry = entry
 			emit(o)
 		})
+		if entry == 0 {
+			for _, dsse := range []bool{false, true} {
+				for _, single := range []bool{false, true} {
+					// links taken from the working directory; a plain link that disagrees with the sublayout's summary
+					emit(gen.NestedOpt{Depth: 2, DSSE: dsse, Delegate: "authorised", ParentRules: "match", SingleStep: single, RelLinks: true,
+						Expired: T.Add(-time.Hour).Format("2006-01-02T15:04:05Z")})
+					emit(gen.NestedOpt{Depth: 2, DSSE: dsse, Delegate: "authorised", ParentRules: "match", SingleStep: single, RelLinks: true, Defect: "link-missing", DefectLevel: 2,
+						Expired: T.Add(-time.Hour).Format("2006-01-02T15:04:05Z")})
+					emit(gen.NestedOpt{Depth: 2, DSSE: dsse, Delegate: "authorised", ParentRules: "match", SingleStep: single, CoThreshold: 2, CoDiffers: true,
+						Expired: T.Add(-time.Hour).Format("2006-01-02T15:04:05Z")})
+				}
+			}
+		}
 		for _, dsse := range []bool{false, true} {
 			for _, single := range []bool{false, true} {
 				for _, cs := range []string{"both-complete", "second-directory-missing", "second-directory-without-links", "second-directory-differs"} {
@@ -264,7 +299,7 @@ func run(c *mcx.Ctx) {
 		sig, obs, choices, ex, outs := explore(c, o, bound)
 		c.Step(1, ex.PointsSeen)
 		c.Depth(ex.MaxDepth)
-		c.Case(o.Defect != "" || o.Delegate != "authorised" || o.ParentRules != "match" || o.Sibling || o.SingleStep || o.CoSub != "" || o.Entry == 1)
+		c.Case(o.RelLinks || o.CoDiffers || o.Defect != "" || o.Delegate != "authorised" || o.ParentRules != "match" || o.Sibling || o.SingleStep || o.CoSub != "" || o.Entry == 1)
 		e := expect(o)
 		c.Outcome(map[bool]string{true: "accept", false: "reject"}[e.accept] + "|" + map[bool]string{true: "delegate-authorised", false: "delegate-not-authorised"}[o.Delegate == "authorised"])
 		if sig != "" {
@@ -293,7 +328,7 @@ func replay(c *mcx.Ctx, raw json.RawMessage) (string, string) {
 func init() {
 	mcx.Register(&mcx.Driver{
 		ID: "C08", Run: run, Replay: replay,
-		Rule: "full product over a generated family of nested supply chains: nesting depth 2 (thorough: + 3) x deepest layout with two steps or one step x with/without a second delegation by another functionary x with/without a second authorised functionary delivering a plain link for the delegated step (threshold 1 / 2) x with/without a foreign signature in front of the delegate's on the sublayout x who offers the level-2 layout {authorised, defined but not listed for the step, foreign, authorised for the preceding step only} x parent rules {matching the summary, violated by it} x defect {none, sublayout signed by another key, signature corrupted, expired (owned clock), link missing / tampered / by an unauthorised key, rule violated, threshold unmet} x level of the defect 1..depth x {legacy, DSSE} x {InTotoVerify, InTotoVerifyWithDirectory with a run directory that is not the link directory}; plus, for a threshold-2 step, the same sublayout handed in by two functionaries with both directories complete, the second missing, the second without links, the second complete but reporting another product; " +
+		Rule: "full product over a generated family of nested supply chains: nesting depth 2 (thorough: + 3) x deepest layout with two steps or one step x with/without a second delegation by another functionary x with/without a second authorised functionary delivering a plain link for the delegated step (threshold 1 / 2) x with/without a foreign signature in front of the delegate's on the sublayout x who offers the level-2 layout {authorised, defined but not listed for the step, foreign, authorised for the preceding step only} x parent rules {matching the summary, violated by it} x defect {none, sublayout signed by another key, signature corrupted, expired (owned clock), link missing / tampered / by an unauthorised key, rule violated, threshold unmet} x level of the defect 1..depth x {legacy, DSSE} x {InTotoVerify, InTotoVerifyWithDirectory with a run directory that is not the link directory}; plus verification started in the link directory with an empty link-directory argument, a plain link next to a sublayout that reports another product, and, for a threshold-2 step, the same sublayout handed in by two functionaries with both directories complete, the second missing, the second without links, the second complete but reporting another product; " +
 			"each under every order of the sublayout loops and the counting loop (thorough: + one deviation elsewhere). Every layout carries a marker inspection. quick keeps unauthorised delegations to defect-free chains. non-trivial = anything but the plain honest 2-step nesting. states = cases, transitions = choice points.",
 		Assumptions: []string{"the verdict is known by construction; REQUIRE rules in every parent make an empty or wrong summary visible", "sublayouts delegated to a certificate functionary are outside the family (don't-care)"},
 	})
